@@ -5,6 +5,7 @@ pub fn dispatch(v: &Value) -> Value {
         "bdd_script" => bdd_script(v),
         "adf_sem" => adf_sem(v),
         "iter" => iter_cmd(v),
+        "adf_persist" => adf_persist(v),
         "adf_history" => adf_history(v),
         "mirror" => mirror_cmd(v),
         "ng" => ng_cmd(v),
@@ -440,4 +441,45 @@ pub fn adf_history(v: &Value) -> Value {
     let mut fresh_adf = adf_from_tabs(n, &tabs);
     let fresh = api_call(&mut fresh_adf, fin, n, v);
     json!({"after": after, "fresh": fresh, "tables_changed": changed, "repeat_differs": repeat_differs, "nodes": dump_nodes(&adf.bdd)})
+}
+
+fn final_call(adf: &mut Adf, fin: &str, n: usize, v: &Value) -> Value {
+    if fin == "post_ops" {
+        let a0 = adf.ac[0];
+        let a1 = adf.ac[adf.ac.len() - 1];
+        let x = adf.bdd.and(a0, a1);
+        let y = adf.bdd.xor(a0, a1);
+        let z = adf.bdd.restrict(y, Var(0), false);
+        let tabstr = |t: Term| -> String { (0..(1u64 << n)).map(|a| if eval(&adf.bdd, t, a) { '1' } else { '0' }).collect() };
+        return json!([tabstr(x), tabstr(y), tabstr(z)]);
+    }
+    api_call(adf, fin, n, v)
+}
+
+pub fn adf_persist(v: &Value) -> Value {
+    let n = us(&v["n"]);
+    let tabs = tabs_of(&v["tabs"]);
+    let mut adf = adf_from_tabs(n, &tabs);
+    for c in v["history"].as_array().unwrap() {
+        api_call(&mut adf, c.as_str().unwrap(), n, v);
+    }
+    let nodes_before = dump_nodes(&adf.bdd);
+    let ac_before: Vec<usize> = adf.ac.iter().map(|t| t.value()).collect();
+    let mut back: Adf = if v["mode"].as_str() == Some("serde") {
+        let text = serde_json::to_string(&adf).expect("export");
+        let mut b: Adf = serde_json::from_str(&text).expect("import");
+        b.fix_import();
+        b
+    } else {
+        let bdd = Bdd::from(adf.bdd.nodes.clone());
+        Adf::from((adf.ordering.clone(), bdd, adf.ac.clone()))
+    };
+    let nodes_after = dump_nodes(&back.bdd);
+    let ac_after: Vec<usize> = back.ac.iter().map(|t| t.value()).collect();
+    let fin = v["final"].as_str().unwrap();
+    let after = final_call(&mut back, fin, n, v);
+    let mut fresh_adf = adf_from_tabs(n, &tabs);
+    let fresh = final_call(&mut fresh_adf, fin, n, v);
+    json!({"nodes_before": nodes_before, "nodes_after": nodes_after, "ac_before": ac_before, "ac_after": ac_after,
+           "after": after, "fresh": fresh, "nodes_final": dump_nodes(&back.bdd)})
 }
